@@ -216,6 +216,9 @@ def gen_ticket(r, tid, units, profile, depth=0, u=None):
     if u["spec"].get("kwargs") and u["obj"] is None and r.random() < profile.get("p_reserved", 0.2):
         # a caller passing a reserved name as keyword argument (rejected with TypeError where it would clash)
         td["kw"] = {r.choice(["result", "OLD", "_ARGS", "_KWARGS", "other"]): 0}
+    if not u["spec"].get("kwargs") and u["obj"] is None and "kw" not in td and r.random() < profile.get("p_badcall", 0.0):
+        # a call that does not match the signature (unknown keyword): Python's TypeError, at the point where the function is called
+        td["kw"] = {"zzz_unknown": 1}
     if sites:
         td["sites"] = sites
     if body:
